@@ -515,6 +515,8 @@ def probe_devices(virtual: bool, channels=None) -> list:
     chans = channels or (probe_channels(Rydberg, phys)[0], probe_channels(Raman, phys)[1],
                          probe_channels(Microwave, phys)[1])
     ids = tuple(f"ch{i}" for i in range(len(chans)))
+    min_chans = tuple(chans) if channels else tuple(ch for ch in chans if ch.basis != "XY")
+    xy = 3700.0 if any(ch.basis == "XY" for ch in min_chans) else None
     dmm = probe_channels(DMM, phys)[0]
     full = dict(name="probe", dimensions=3, rydberg_level=70, min_atom_distance=2.5, max_atom_num=20,
                 max_radial_distance=40, interaction_coeff_xy=3700.0, supports_slm_mask=True,
@@ -524,14 +526,15 @@ def probe_devices(virtual: bool, channels=None) -> list:
     if virtual:
         a = VirtualDevice(requires_layout=True, reusable_channels=False, **full)
         b = VirtualDevice(**{**full, "supports_slm_mask": False, "dimensions": 2})
-        c = VirtualDevice(name="min", dimensions=2, rydberg_level=60, channel_objects=tuple(chans))
+        c = VirtualDevice(name="min", dimensions=2, rydberg_level=60, channel_objects=min_chans,
+                          interaction_coeff_xy=xy)
         return [a, b, c]
     full.update(pre_calibrated_layouts=(probe_layout(), probe_layout(False)), accepts_new_layouts=False,
                 requires_layout=False)
     a = Device(**full)
     b = Device(**{**full, "supports_slm_mask": False, "dimensions": 2})
     c = Device(name="min", dimensions=2, rydberg_level=60, min_atom_distance=1.0, max_atom_num=10,
-               max_radial_distance=30, interaction_coeff_xy=3700.0, channel_objects=tuple(chans))
+               max_radial_distance=30, interaction_coeff_xy=xy, channel_objects=min_chans)
     return [a, b, c]
 
 
@@ -593,8 +596,10 @@ def probe_device_decoder(virtual: bool):
     res_ch: dict[str, dict[str, object]] = {}
     res_eom: dict[str, object] = {}
     phys = not virtual
+    rules = dispatch_rules()
     for cls in (Rydberg, Raman, Microwave, DMM):
-        res: dict[str, object] = {}
+        # a key the decoder uses to recognise the class is required by definition
+        res: dict[str, object] = {k: REQUIRED for b, k, c in rules if k is not None and c == cls.__name__}
         for base in probe_channels(cls, phys):
             if cls is DMM:
                 dev = probe_devices(virtual)[1]
@@ -640,9 +645,11 @@ def probe_device_decoder(virtual: bool):
                     else:
                         res_eom[k] = ("value", to_value(getattr(r.channel_objects[0].eom_config, k)))
         bad = [k for k, v in res.items() if v is INCONCLUSIVE]
-        if bad:
+        if bad and virtual:
             raise TableError(f"decoder probe inconclusive for {cls.__name__} keys {bad}")
-        res_ch[cls.__name__] = res
+        # a physical device rejects partially specified channels: those keys are settled by the
+        # virtual-device probe (the channel decoder is the same function)
+        res_ch[cls.__name__] = {k: v for k, v in res.items() if v is not INCONCLUSIVE}
     bad = [k for k, v in res_eom.items() if v is INCONCLUSIVE]
     if bad:
         raise TableError(f"decoder probe inconclusive for EOM keys {bad}")
@@ -863,6 +870,10 @@ def build_tables() -> dict:
             seen |= set(json.loads(d.to_abstract_repr()))
         skip = [n for n in names if n not in seen]
         dd, rq = _split_probe(probe, names)
+        # a field that is never written always takes the decoder's fallback: read it off a decoded probe
+        decoded = dict(device_value(deserializer._deserialize_device_object(
+            json.loads(probe_devices(virtual)[0].to_abstract_repr())))[1])
+        dd += [(n, decoded[n]) for n in skip if n not in dict(dd)]
         consts = [("version", vstr("1")), ("pulser_version", vstr(pulser.__version__)),
                   ("is_virtual", vbool(virtual))]
         props, req = schema_device(virtual)
@@ -908,6 +919,7 @@ def build_tables() -> dict:
         param_type=list(nmod._PARAM_TO_NOISE_TYPE.items()),
         zeroed=sorted(nmod._POSITIVE | nmod._PROBABILITY_LIKE),
         params=nparams,
+        defaults=[(p.name, to_value(p.default)) for p in sig.parameters.values() if p.name != "self"],
         rename=[(k, v) for k, v in rename.items()],
         fields=[f.name for f in dataclasses.fields(nmod.NoiseModel)],
         sim_fields=sim_fields,
@@ -971,10 +983,14 @@ namespace Generated
 """
 
 
+def _lean_name(cls_name: str) -> str:
+    return cls_name.lower() if cls_name.isupper() else cls_name[0].lower() + cls_name[1:]
+
+
 def render(tabs: dict) -> str:
     s = [HEADER]
     for cname, tab in tabs["channels"].items():
-        s.append(tab.lean(cname[0].lower() + cname[1:]))
+        s.append(tab.lean(_lean_name(cname)))
         s.append("\n")
     s.append(tabs["eom"].lean("eom"))
     s.append("\n")
@@ -989,7 +1005,7 @@ def render(tabs: dict) -> str:
                                                     lean_str(c)) for b, k, c in tabs["dispatch"])
     s.append(f"def dispatch : List DispatchRule := [\n    {rules}]\n\n")
     s.append("def channels : ChannelTables where\n"
-             "  classes := [" + ", ".join(c[0].lower() + c[1:] for c in tabs["channels"]) + "]\n"
+             "  classes := [" + ", ".join(_lean_name(c) for c in tabs["channels"]) + "]\n"
              "  eom := eom\n  dispatch := dispatch\n\n")
     s.append("def devices : DeviceTables where\n  physical := device\n  virtual := virtualDevice\n"
              "  layout := layout\n  chans := channels\n\n")
@@ -1004,6 +1020,7 @@ def render(tabs: dict) -> str:
              f"  paramType := {pair(n['param_type'])}\n"
              f"  zeroed := {lean_strs(n['zeroed'])}\n"
              f"  params := {lean_strs(n['params'])}\n"
+             f"  defaults := [" + ", ".join(f"({lean_str(k)}, {lean_value(v)})" for k, v in n["defaults"]) + "]\n"
              f"  simRename := {pair(n['rename'])}\n\n")
     s.append(f"/-- `dataclasses.fields(NoiseModel)`. -/\ndef noiseFields : List String := {lean_strs(n['fields'])}\n\n")
     s.append(f"/-- `dataclasses.fields(SimConfig)` with their defaults. -/\n"
